@@ -946,6 +946,123 @@ theorem initRows_getElem (n : Nat) (rows : List (List Str)) (j : Nat) (hj : j < 
       = rows.map (fun r => mkCell (r.getD j [])) := by
   simp [initRows]
 
+/-! ### styles whose right border is not blank: the strip removes nothing -/
+
+/-- the string ends with a non-blank character -/
+def solidEnd (s : Str) : Bool :=
+  match s.getLast? with
+  | some c => !isWs c
+  | none => false
+
+/-- the right border string and the three right corner/crossing strings end non-blank -/
+def rightSolid (st : Clikit.Gen.C14.TableStyle) : Bool :=
+  solidEnd st.border.line_vr_char && solidEnd st.border.corner_tr_char
+  && solidEnd st.border.crossing_r_char && solidEnd st.border.corner_br_char
+
+theorem solidEnd_rstrip (pre s : Str) (h : solidEnd s = true) :
+    rstrip (pre ++ s) = pre ++ s ∧ pre ++ s ≠ [] := by
+  unfold solidEnd at h
+  split at h
+  · rename_i c hc
+    obtain ⟨ys, rfl⟩ := List.getLast?_eq_some_iff.mp hc
+    have hws : isWs c = false := by simpa using h
+    rw [← List.append_assoc]
+    exact ⟨rstrip_of_last _ c hws, by simp⟩
+  · cases h
+
+theorem borderBody_suffix (lineCh c r : Str) :
+    ∀ lens, lens ≠ [] → ∃ pre, borderBody lineCh c r lens = pre ++ r := by
+  intro lens
+  induction lens with
+  | nil => intro h; exact absurd rfl h
+  | cons x xs ih =>
+    intro _
+    cases xs with
+    | nil => exact ⟨_, rfl⟩
+    | cons y ys =>
+      obtain ⟨pre, hpre⟩ := ih (by simp)
+      exact ⟨rep x lineCh ++ c ++ pre, by rw [borderBody, hpre]; simp⟩
+
+theorem rowPieces_suffix (st : Clikit.Gen.C14.TableStyle) (fmt : Str × Str)
+    (hp : st.padding_char.length = 1) (k : Nat) :
+    ∀ row, row ≠ [] → RowFits row →
+      ∃ pre, (rowPieces st fmt k row).flatten = pre ++ st.border.line_vr_char := by
+  intro row
+  induction row with
+  | nil => intro h; exact absurd rfl h
+  | cons c r ih =>
+    intro _ hfit
+    obtain ⟨w, a, ls⟩ := c
+    cases r with
+    | nil =>
+      have hline : (ls.getD k []).length ≤ w := by
+        rcases getD_nil_or_mem ls k with h | h
+        · rw [h]; simp
+        · exact hfit (w, a, ls) List.mem_cons_self _ h
+      obtain ⟨p, hp1, _⟩ := padCell_length st.padding_char hp a w _ hline
+      exact ⟨fmt.1 ++ p ++ fmt.2, by
+        simp only [rowPieces, hp1, List.isEmpty_nil, if_true, List.flatten_cons, List.flatten_nil,
+          List.append_nil, List.append_assoc]⟩
+    | cons c2 r2 =>
+      obtain ⟨pre, hpre⟩ := ih (by simp) (fun c hc => hfit c (List.mem_cons_of_mem _ hc))
+      rw [rowPieces, List.flatten_cons, hpre]
+      exact ⟨_, (List.append_assoc _ _ _).symm⟩
+
+theorem rowDataFrom_ne_nil (aligns : List Nat) (i j : Nat) (outs : List ColOut) (h : outs ≠ []) :
+    rowDataFrom aligns i j outs ≠ [] := by
+  cases outs with
+  | nil => exact absurd rfl h
+  | cons o r => simp [rowDataFrom]
+
+/-- with a non-blank right border no line loses anything to the trailing-blank strip -/
+theorem renderRowsRaw_solid (st : Clikit.Gen.C14.TableStyle) (hasHeader : Bool)
+    (hp : st.padding_char.length = 1) (hsolid : rightSolid st = true)
+    (outs : List ColOut) (hne : outs ≠ []) (hok : OutsOk outs)
+    (aligns : List Nat) (nrows indent : Nat) :
+    ∀ raw ∈ renderRowsRaw st aligns hasHeader nrows outs indent,
+      rstrip raw.2 = raw.2 ∧ raw.2 ≠ [] := by
+  unfold rightSolid at hsolid
+  simp only [Bool.and_eq_true] at hsolid
+  obtain ⟨⟨⟨hvr, htr⟩, hcr⟩, hbr⟩ := hsolid
+  have hlens : outs.map (fun o => o.width + excess st) ≠ [] := by simpa using hne
+  have hb : ∀ lineCh l c r, solidEnd r = true →
+      ∀ raw : RawLine, raw = (true, borderRaw indent (outs.map (fun o => o.width + excess st)) lineCh l c r) →
+      rstrip raw.2 = raw.2 ∧ raw.2 ≠ [] := by
+    intro lineCh l c r h raw hraw
+    subst hraw
+    obtain ⟨pre, hpre⟩ := borderBody_suffix lineCh c r _ hlens
+    simp only [borderRaw, hpre, ← List.append_assoc]
+    exact solidEnd_rstrip _ r h
+  have hrow : ∀ fmt i, ∀ raw ∈
+      (drawRowRaw st fmt indent (rowData outs aligns i)).map (fun s => ((false, s) : RawLine)),
+      rstrip raw.2 = raw.2 ∧ raw.2 ≠ [] := by
+    intro fmt i raw hraw
+    obtain ⟨s, hs, rfl⟩ := List.mem_map.mp hraw
+    unfold drawRowRaw at hs
+    obtain ⟨k, _, rfl⟩ := List.mem_map.mp hs
+    obtain ⟨pre, hpre⟩ := rowPieces_suffix st fmt hp k (rowData outs aligns i)
+      (rowDataFrom_ne_nil aligns i 0 outs hne) (rowDataFrom_fits aligns i outs 0 hok)
+    simp only [rowLineRaw, hpre, ← List.append_assoc]
+    exact solidEnd_rstrip _ _ hvr
+  intro raw hraw
+  unfold renderRowsRaw at hraw
+  simp only at hraw
+  split at hraw
+  · simp only [List.mem_append, List.mem_singleton, List.mem_flatten, List.mem_map, List.mem_range] at hraw
+    rcases hraw with (((h | h) | h) | h) | h
+    · exact hb _ _ _ _ htr raw h
+    · exact hrow _ 0 raw (by simpa [List.mem_map] using h)
+    · exact hb _ _ _ _ hcr raw h
+    · obtain ⟨rowl, ⟨i, _, rfl⟩, hmem⟩ := h
+      exact hrow _ (i + 1) raw hmem
+    · exact hb _ _ _ _ hbr raw h
+  · simp only [List.mem_append, List.mem_singleton, List.mem_flatten, List.mem_map, List.mem_range] at hraw
+    rcases hraw with (h | h) | h
+    · exact hb _ _ _ _ htr raw h
+    · obtain ⟨rowl, ⟨i, _, rfl⟩, hmem⟩ := h
+      exact hrow _ i raw hmem
+    · exact hb _ _ _ _ hbr raw h
+
 /-- `r` is `.ok v` (decidable; used by the kernel-checked examples) -/
 def okIs {α} [DecidableEq α] (r : Except Err α) (v : α) : Bool :=
   match r with
